@@ -1,6 +1,6 @@
 (** * C09 at the level of world operations: while locked, every structural operation
       panics and returns the world unchanged (equal, not merely equivalent). *)
-From Arche Require Import Model.Base Model.Pool Model.Filter Model.World Model.Ops.
+From Arche Require Import Model.Base Model.Pool Model.Filter Model.World Model.Ops Proofs.Atomic.
 
 (** The structural entry points of the model's operation type. *)
 Definition structural (o : op) : bool :=
@@ -17,8 +17,8 @@ Proof. intros H. unfold exchange_nn. by rewrite H. Qed.
 Lemma new_entities_nn_locked w c b t : is_locked w = true -> new_entities_nn w c b t = None.
 Proof. intros H. unfold new_entities_nn. rewrite H. by destruct t, (b_rel b). Qed.
 
-Theorem locked_rejects w o :
-  is_locked w = true -> structural o = true -> step w o = (w, Panic, []).
+Lemma locked_rejects0 w o :
+  is_locked w = true -> structural o = true -> step0 w o = (w, Panic, []).
 Proof.
   intros HL Hs. destruct o; try discriminate Hs; simpl.
   - unfold op_new. by rewrite HL.
@@ -41,6 +41,10 @@ Proof.
   - unfold world_load. by rewrite HL.
 Qed.
 
+Theorem locked_rejects w o :
+  is_locked w = true -> structural o = true -> step w o = (w, Panic, []).
+Proof. intros HL Hs. apply step_panic_same; [by apply locked_rejects0|by apply ghost_of_locked]. Qed.
+
 (** Registering a new component type in a locked world panics and leaves the registry
     (and everything else) unchanged; a type that is already registered is still found. *)
 Theorem register_locked w key isrel zs :
@@ -49,7 +53,7 @@ Theorem register_locked w key isrel zs :
   exists id, step w (ORegister key isrel zs) = (w, Ok (VNat id), []) /\
              (exists c, w_reg w !! id = Some c /\ ci_key c = key).
 Proof.
-  intros HL. simpl. unfold register_comp.
+  intros HL. rewrite (step_other w (ORegister key isrel zs)) by done. simpl. unfold register_comp.
   destruct (find_index (fun c => ci_key c =? key) (w_reg w)) as [id|] eqn:Hf.
   - right. exists id. split; [done|].
     clear HL. revert id Hf. induction (w_reg w) as [|c r IH]; intros id Hf; simpl in *; [done|].
